@@ -2,6 +2,7 @@ import Exetera.Model.Catalogue
 import Exetera.Spec.Catalogue
 import Exetera.Lemmas.CatalogueViews
 import Exetera.Lemmas.CatalogueReopen
+import Exetera.Lemmas.CatalogueAtomic
 /-!
   C15 — the catalogue stays consistent under any history of structural edits.
   All theorems are about `Exetera.Catalogue.step .repaired` / `run .repaired`, the functions the driver executes
@@ -107,6 +108,24 @@ theorem handles_follow_rename {s : State} (hI : Inv s) (g : Nat) (dict : List (N
   handle_follows_rename hI.toInvCore g dict hok hc
 
 example : ((0, "a"), 0) ∈ exState.cols ∧ viewHandle (renamedState exState 0 exDict) 0 = .named "b" := by decide
+
+/-! ### every call on the columns of a dataframe is all-or-nothing -/
+
+/-- Under the invariant, a call on the columns of a dataframe (create_*, df[n]=f, add, del, drop, delete_field, rename,
+    dataframe.copy, dataframe.move) that raises leaves both catalogues, all field objects and all data exactly as they
+    were — provided `dataframe.move` is not handed the left-over object of a column that was deleted earlier
+    (`Op.srcLinked`; such an object copies and then fails on `field.name`, see the report). -/
+theorem field_calls_all_or_nothing_partial {s : State} (hI : Inv s) (op : Op) (hf : op.fieldLevel = true)
+    (hz : op.srcLinked s) : ErrKeeps s (step .repaired s op) :=
+  field_ops_errKeeps hI op hf hz
+
+/- full statement (dataset-level calls not proved: their only partial-failure points are unreachable under `Inv`, as the
+   proof of `inv_step` shows case by case, but the lemma has not been assembled):
+theorem calls_all_or_nothing {s : State} (hI : Inv s) (op : Op) (hz : op.srcLinked s) : ErrKeeps s (step .repaired s op) -/
+
+example : (Op.moveField (.byHandle 0) 0 "y" "a_").fieldLevel = true ∧
+    (step .repaired exState (.moveField (.byHandle 0) 0 "y" "a_")).isOk = false ∧
+    (step .repaired exState (.moveField (.byHandle 0) 0 "y" "a_")).state = exState := by decide
 
 /-! ### untouched fields keep their data -/
 
